@@ -895,10 +895,11 @@ def make_jobs(ck, rng, params=None):
                 obj = "len" if not general or r.chance(2, 3) else r.choice(["sci", "work", "multi"])
                 job(planner, obj, r.range(1, 2), r.choice(["def", "def", "inf"]), r.choice([0, 1, 3, 4]), 2, r.range(1, 10 ** 6), ev, 2, g_small,
                     hist=r.choice(["c", "c", "s"]), cfg=cfg_requires("%s=%s" % (name, vals[0])), tag="cfg-bool")
-            # (b) numeric parameters one at a time (quick: two of them per planner), (c) a random mix of everything
+            # (b) numeric parameters one at a time (quick: one of them per planner; thorough: all of them once, then two per repetition),
+            # (c) a random mix of everything
             pick = list(nums)
             r.shuffle(pick)
-            for name, default, vals, _b in (pick[:1] if ck.tier == "quick" else pick):
+            for name, default, vals, _b in (pick[:1] if ck.tier == "quick" else pick if rep == 0 else pick[:2]):
                 job(planner, "len", 0, "def", r.choice([0, 1, 3, 4]), 2, r.range(1, 10 ** 6), ev, 2, g_small, hist="c",
                     cfg="%s=%s" % (name, r.choice(vals)), tag="cfg-num")
             for _ in range(1 if ck.tier == "quick" else 3):
